@@ -48,3 +48,28 @@ def make_replay(prop, groups, tier, seed):
             f.write("print('no failing input was found for the failed obligations listed in the docstring of this file')\n")
             f.write("print(__doc__)\nsys.exit(1)\n")
     return path, found
+
+
+def cross_check(prop, seed, budget=150):
+    """thorough tier: the run-time versions of the contract clauses are evaluated on random histories of the REAL code
+    (bounded: `budget` seconds).  Returns (replay path | None, ran?)."""
+    searcher = os.path.join(ROOT, "rt", "search_%s.py" % prop)
+    if not os.path.exists(searcher):
+        return None, False
+    try:
+        p = subprocess.run(["/venv/bin/python", searcher, "--seed", str(seed), "--budget", str(budget), "--sites", "[]"],
+                           capture_output=True, text=True, timeout=budget + 120, cwd=ROOT)
+        last = p.stdout.strip().split("\n")[-1] if p.stdout.strip() else ""
+        r = json.loads(last) if last.startswith("{") else {}
+    except Exception:
+        return None, False
+    if not r.get("found"):
+        return None, True
+    os.makedirs(os.path.join(ROOT, "replays"), exist_ok=True)
+    path = os.path.join(ROOT, "replays", "%s-runtime-%d.py" % (prop, seed))
+    with open(path, "w") as f:
+        f.write("#!/venv/bin/python\n")
+        f.write('"""replay for a violation of %s found by the run-time contract monitor (no proof obligation failed)"""\n' % prop)
+        f.write('import sys\nsys.path.insert(0, __import__("os").environ.get("PYVC_REPO", "/repo"))\n')
+        f.write(r["replay"])
+    return path, True
